@@ -93,6 +93,12 @@ fn multisets(ps: &[Program], n: usize) -> Vec<Vec<Program>> {
 
 fn gen_sets(prop: &str, tier: &str) -> Vec<ProgSet> {
     use TOp::*;
+    if prop == "C04" {
+        // the count while several threads clone through a shared reference to ONE handle (the
+        // count is 1 while they race), and through handles of their own: after every thread has
+        // released what it cloned the count must be exactly the number of handles left
+        return gen_sets("C02", tier).into_iter().filter(|s| s.programs.iter().any(|p| p.init == Kind::B) || s.programs.len() == 2 && s.programs.iter().all(|p| p.ops.len() <= 2 && p.init == Kind::A)).collect();
+    }
     let thorough = tier == "thorough";
     let mut sets = vec![];
     match prop {
@@ -436,6 +442,7 @@ fn main() {
         "C03" => bridge::WRITE,
         "C08" => bridge::WRITE | bridge::COWSEM,
         "C09" => bridge::CONSERVE | bridge::WRITE,
+        "C04" => bridge::CONSERVE | bridge::ORDER,
         _ => u32::MAX,
     };
     bridge::OWNED.store(owned, Ordering::Relaxed);
